@@ -210,10 +210,13 @@ class TwistedEventLoop(EventLoop):
         self._twisted_idle_enabled = True
 
     def _twisted_idle_callback(self) -> None:
-        for handle, callback in list(self._idle_callbacks.items()):
-            if handle in self._idle_callbacks:  # not removed by a previous idle callback
-                callback()
-        self._twisted_idle_enabled = False
+        try:
+            for handle, callback in list(self._idle_callbacks.items()):
+                if handle in self._idle_callbacks:  # not removed by a previous idle callback
+                    callback()
+        finally:
+            # also when an idle callback raises: otherwise no idle callback runs in a later run()
+            self._twisted_idle_enabled = False
 
     def remove_enter_idle(self, handle: int) -> bool:
         """
